@@ -117,6 +117,12 @@ add('C19',
     'Soundness also depends on the resolver answering truthfully and on the CFG/scope analyses (C05, C08); nothing is executed.',
     'DESIGN.md section 4, C19')
 
+add('C02',
+    'set-algebra evaluation of the state-selection functions (_get_block_basic_vars / _get_block_composite_vars / _get_block_vars) and of _create_nonlocal_declarations to membership formulas, truth-table comparison with the required bounds; reaching-definition check of the `modified` argument at each call site; template model check that every generated function holding user statements declares the state first; sibling agreement of the analyses on the hidden loop test; closure-liveness formula shared with C07',
+    'Decides the selection mechanism and its wiring: the state tuple contains every modified simple variable that is live-in, live-out, nonlocal or global and every modified composite whose support symbols are live-in (literal keys exempt); input-only variables are state, live-in, not live-out and never composite; the modified set unites all blocks of the statement; generated body/orelse/setter functions declare the state (global vs nonlocal split, composites excluded) before user statements; cfg, activity and reaching_fndefs all walk the hidden extra loop test and break keeps its flag referenced in the loop; free variables of reaching closures are live regardless of the kill set.',
+    'Soundness of liveness/definedness on all programs is decided only as mechanism (C06, C07); what a backend does with the state is out of scope.',
+    'DESIGN.md section 4, C02')
+
 NOT_APPLICABLE = {
     'C12': 'quantifies over run-time tracebacks, generated line layout and source-map contents, which exist only after the pipeline has run on a program; the only shape-level clause (exception re-creation table) is too small a part to claim the property through (DESIGN.md section 5)',
 }
